@@ -138,8 +138,15 @@ class CallMixin:
         # ---- at_call site assertions (for calls without contract)
         key = self.callee_key(f)
         sites = self.cur_contract.get("at_call", {})
+        cnt0 = self.call_ord.get(id(n), 0)
+        if f"{key}#{cnt0}" in sites and self.resolve(f, st) is None:
+            # site-specific conditions: 'then#1' = the second call of .then in source order
+            sites = dict(sites)
+            sites[key] = list(sites.get(key, [])) + list(sites[f"{key}#{cnt0}"])
+            self.sites_seen.add(f"{key}#{cnt0}")
         if key in sites and self.resolve(f, st) is None:
             cnt = self.call_ord.get(id(n), 0)
+            recv_v = self.ev(f.value, st, old) if isinstance(f, ast.Attribute) else None
             actuals = [self.ev(a, st, old) for a in n.args]
             stb = st.clone()
             for i, a in enumerate(actuals):
@@ -147,8 +154,8 @@ class CallMixin:
             for kw in n.keywords:
                 if kw.arg:
                     stb.env["kw_" + kw.arg] = self.ev(kw.value, st, old)
-            if isinstance(f, ast.Attribute):
-                stb.env["recv"] = self.ev(f.value, st, old)
+            if recv_v is not None:
+                stb.env["recv"] = recv_v
             for i, e in enumerate(sites[key]):
                 g = self.spec(e, stb, self.entry)
                 self.oblige(f"{self.cur}/at[{key}#{cnt}].{i}", "at", st, g, n.lineno)
